@@ -167,6 +167,7 @@ func runC15(c *mon.Ctx) {
 	var pooled *KeyedSP // one long-lived provider (fixed keys) re-configured for every other case
 	var heldDoc *etree.Document
 	var heldXML, heldDesc string
+	var prevNow time.Time // the clock reading of the message this process built last
 	n := c.N(4000, 200000)
 	for k := 0; k < n; k++ {
 		cs := c.Begin("outbound-structure", k)
@@ -192,6 +193,16 @@ func runC15(c *mon.Ctx) {
 					time.Date(2262, 4, 11, 23, 47, 16, 854775808, time.UTC), time.Date(9998, 12, 31, 23, 59, 59, 999999999, time.UTC), time.Date(2, 1, 1, 0, 0, 0, 1, time.UTC)}).In(zone)
 			}
 		}
+		if !prevNow.IsZero() && r.IntN(4) == 0 {
+			// messages in quick succession: the clock has moved on by less than a second since the last message this
+			// process built (another provider, another kind), often across a second boundary, sometimes not at all
+			now = prevNow.Add(time.Duration(pick(r, []int64{0, 1, 1000, 1e6, 200e6, 400e6, 500e6, 700e6, 999e6, 999999999, r.Int64N(1e9), r.Int64N(1e9)}))).In(zone)
+			c.Count("clock.quick-succession", 1)
+			if now.Unix() != prevNow.Unix() {
+				c.Count("clock.quick-succession-across-a-second", 1)
+			}
+		}
+		prevNow = now
 		kind := c15Kinds[k%len(c15Kinds)]
 		ksp := NewKeyedSP(base, KeyCfg{EncField: true, SignSetter: r.IntN(2) == 0, ECSetter: r.IntN(2) == 0})
 		if k%2 == 1 {
